@@ -109,18 +109,39 @@ class Prop(common.PropertyCheck):
                 # tick locators built on the transform (as the logicle scale does) compute ticks for several views: the transform keeps solving the
                 # equation of its own triple
                 shared = None
+                import signal
+
+                class _Slow(Exception):
+                    pass
+
+                def _alarm(signum, frame):
+                    raise _Slow()
+                old_handler = signal.signal(signal.SIGALRM, _alarm)
+                outer = signal.setitimer(signal.ITIMER_REAL, 20.0)          # (the harness-wide watchdog is re-armed below)
+                import time as _time
+                t_inner = _time.time()
                 try:
-                    for subs in (None, np.arange(1.0, 10.0)):
+                    # (on a deterministic fifth of the triples, and on every triple without a linear region: the locator rebuilds an interpolated
+                    # inverse on every call, which bounds what a quick run can afford)
+                    sel = W == 0 or (int(T * 1000) + int(M * 100) + int(W * 1000)) % 5 == 0
+                    for subs in ((None, np.arange(1.0, 10.0)) if sel else ()):
                         loc = FlowCal.plot._LogicleLocator(t, subs=subs)
-                        for vmin, vmax in ((float(x[0]), float(x[-2])), (-abs(float(x[-2])) / 100., float(x[-2])), (0.0, float(T))):
+                        for vmin, vmax in ((float(x[0]), float(x[-2])), (0.0, float(T))) if subs is None else ((-abs(float(x[-2])) / 100., float(x[-2])),):
                             loc.tick_values(vmin, vmax)
                     x2 = t.transform_non_affine(s)
                     if [float(t.T), float(t.M), float(t.W)] != [float(T), float(M), float(W)] or bits(float(t._p)) != bits(p):
                         shared = 'after its tick locator computed ticks the transform reports T, M, W = %r, %r, %r and p = %r (was %r)' % (float(t.T), float(t.M), float(t.W), float(t._p), p)
                     elif [bits(v) for v in x2] != [bits(v) for v in x]:
                         shared = 'after its tick locator computed ticks the transform maps the same display values to other data values'
+                except _Slow:
+                    shared = 'the tick locator built on the transform did not return within 20 s (it normally takes milliseconds)'
                 except Exception as e:
                     shared = 'tick locator raised %s: %s' % (type(e).__name__, str(e)[:80])
+                finally:
+                    signal.setitimer(signal.ITIMER_REAL, 0)
+                    signal.signal(signal.SIGALRM, old_handler)
+                    if outer and outer[0] > 0:
+                        signal.setitimer(signal.ITIMER_REAL, max(outer[0] - (_time.time() - t_inner), 0.01))
                 # the inverse is a function of the data VALUE: integer-typed events (as loaded from an integer file) get the display position of the same number
                 try:
                     xi = np.unique(np.clip(np.array([0, 1, 2, 7, 100, 1000, T / 2.0, T]), 0, T).astype(np.int64))
